@@ -2,8 +2,8 @@
 """usage: install_seed.py <seed id> <detecting check(s)> <how it was reported>  — copies a confirmed seeded change into /verif/seeded/<id>/"""
 import sys, os, json, shutil
 sid, checks, how = sys.argv[1], sys.argv[2], sys.argv[3]
-src = '/tmp/seed/out/' + sid
-dst = '/verif/seeded/' + sid
+src = os.environ.get('SEED_SRC', '/tmp/seed/out') + '/' + sid
+dst = '/verif/seeded/' + os.environ.get('SEED_PREFIX', '') + sid
 os.makedirs(dst, exist_ok=True)
 patch = 'patch_rebased.diff' if os.path.isfile(src + '/patch_rebased.diff') else 'patch.diff'
 shutil.copy(os.path.join(src, patch), dst + '/patch.diff')
@@ -15,7 +15,7 @@ meta.update(dict(
     written_by='independent sub-agent given only the property text and a scratch worktree',
     confirmed_by_main_session=conf.strip().split('\n'),
     rebased=(patch != 'patch.diff'),
-    ran='git -C /repo apply seeded/%s/patch.diff ; ./check %s ; git -C /repo checkout -- .' % (sid, checks.replace(',', ' ; ./check ')),
+    ran='git -C /repo apply seeded/%s/patch.diff ; ./check %s ; git -C /repo checkout -- .' % (os.environ.get('SEED_PREFIX', '') + sid, checks.replace(',', ' ; ./check ')),
     detected_by=checks.split(','), detection=how))
 json.dump(meta, open(dst + '/meta.json', 'w'), indent=1)
 print('installed', sid)
